@@ -6,7 +6,7 @@
 #[cfg(kani)]
 pub mod util;
 
-#[cfg(all(kani, any(feature = "c01", feature = "c02", feature = "c04", feature = "c05", feature = "c07", feature = "c11", feature = "c18")))]
+#[cfg(all(kani, any(feature = "c01", feature = "c02", feature = "c04", feature = "c05", feature = "c07", feature = "c08", feature = "c09", feature = "c11", feature = "c18")))]
 pub mod ar;
 
 #[cfg(all(kani, any(feature = "c12", feature = "c13", feature = "c14", feature = "c15", feature = "c16", feature = "c17")))]
